@@ -10,6 +10,7 @@ package main
 
 import (
 	"fmt"
+	"strings"
 
 	"github.com/youchainhq/go-youchain/core"
 	"github.com/youchainhq/go-youchain/core/rawdb"
@@ -118,11 +119,155 @@ func runChainCase(t []vp, canon []hdr, calls []clCall) (string, int) {
 	return "", -1
 }
 
+// ---- VersionForRoundWithParents: which version's parameters the other subsystems use for round r -----------------
+// Compared with the Lean model `versionForRound` (ModelVfr.lean, look-back constant regenerated from the source) on
+// the same BlockChain the batch calls ran on: canonical index = the K lines, parents = a slice of headers the caller
+// has not stored yet. A Go panic (slice index out of range) is the model's `crash`.
+
+type vfrQ struct {
+	r       uint64
+	parents []hdr
+}
+
+func (q vfrQ) line() string {
+	l := fmt.Sprintf("F %d", q.r)
+	for _, h := range q.parents {
+		l += " | " + h.String()
+	}
+	return l
+}
+
+func vfrReal(bc *core.BlockChain, q vfrQ) (res string) {
+	defer func() {
+		if r := recover(); r != nil {
+			res = "crash"
+		}
+	}()
+	var ps []*types.Header
+	for _, h := range q.parents {
+		ps = append(ps, h.toGo())
+	}
+	yp, err := bc.VersionForRoundWithParents(q.r, ps)
+	if err != nil {
+		switch {
+		case strings.HasPrefix(err.Error(), "can't find header"):
+			return "noheader"
+		case strings.Contains(err.Error(), "not exist"):
+			return "unknownversion"
+		}
+		return "err? " + err.Error()
+	}
+	if yp == nil {
+		return "nil-params"
+	}
+	return fmt.Sprintf("ok %d", uint64(yp.Version))
+}
+
+func vfrDriverLines(t []vp, canon []hdr) []string {
+	out := append(tableLines(t), "KCLEAR")
+	for _, h := range canon {
+		out = append(out, "K "+h.String())
+	}
+	return out
+}
+
+// runs the queries on a fresh BlockChain over the canonical headers; "" = model and code agree everywhere
+func runVfrCase(drv *vh.Driver, t []vp, canon []hdr, qs []vfrQ) string {
+	if drv == nil {
+		return ""
+	}
+	setTable(t)
+	db := youdb.NewMemDatabase()
+	for _, h := range canon {
+		g := h.toGo()
+		rawdb.WriteHeader(db, g)
+		rawdb.WriteCanonicalHash(db, g.Hash(), h.n)
+	}
+	bc, err := core.VerifC12Chain(db)
+	if err != nil {
+		return "cannot build header chain: " + err.Error()
+	}
+	for _, l := range vfrDriverLines(t, canon) {
+		if a, e := drv.Ask(l); e != nil || a != "ok" {
+			return fmt.Sprintf("driver refused %q: %q %v", l, a, e)
+		}
+	}
+	for i, q := range qs {
+		got := vfrReal(bc, q)
+		exp, e := drv.Ask(q.line())
+		if e != nil {
+			return "driver: " + e.Error()
+		}
+		if got != exp {
+			return fmt.Sprintf("query %d (%s): VersionForRoundWithParents says %q, the model says %q", i, q.line(), got, exp)
+		}
+	}
+	return ""
+}
+
+func genVfrQueries(c *vh.Ctx, t []vp, full []hdr, k int) []vfrQ {
+	var qs []vfrQ
+	n := c.R.Range(3, 9)
+	for j := 0; j < n; j++ {
+		var q vfrQ
+		switch c.R.Intn(4) {
+		case 0: // around the look-back boundary
+			q.r = uint64(c.R.Range(0, 12))
+		case 1: // around the end of the canonical index
+			q.r = uint64(k + c.R.Range(0, 14))
+		default:
+			q.r = uint64(c.R.Range(0, len(full)+12))
+		}
+		switch c.R.Intn(10) {
+		case 0, 1, 2, 3: // no parents
+		case 4, 5, 6: // the batch being verified: true continuation of the canonical index
+			if k+1 < len(full) {
+				e := k + 1 + c.R.Range(1, 12)
+				if e > len(full) {
+					e = len(full)
+				}
+				q.parents = append([]hdr{}, full[k+1:e]...)
+				if c.R.Chance(60) { // the way header verification asks: about the header following its parents
+					q.r = q.parents[len(q.parents)-1].n + 1
+				}
+			}
+		case 7: // any slice of the chain (may overlap the canonical part, may leave a gap)
+			s := c.R.Range(0, len(full)-1)
+			e := s + c.R.Range(1, 8)
+			if e > len(full) {
+				e = len(full)
+			}
+			q.parents = append([]hdr{}, full[s:e]...)
+		case 8: // a sibling branch
+			s := c.R.Range(1, k+1)
+			sib := growChain(c.R, t, full[s-1], c.R.Range(1, 10))
+			q.parents = append([]hdr{}, sib[1:]...)
+		case 9: // continuation with a header of a locally unknown version
+			if k+1 < len(full) {
+				q.parents = append([]hdr{}, full[k+1:]...)
+				q.parents[c.R.Intn(len(q.parents))].cv = uint64(len(t) + c.R.Range(1, 4))
+			}
+		}
+		qs = append(qs, q)
+	}
+	return qs
+}
+
 func chainLevelStream(c *vh.Ctx) {
 	res := c.Res
 	n := c.N(400, 12000)
 	if c.Search {
 		n *= 3
+	}
+	var drv *vh.Driver
+	if c.Driver != "" {
+		if d, e := vh.StartDriver(c.Driver); e == nil {
+			drv = d
+			defer drv.Close()
+		}
+	}
+	if drv == nil {
+		res.Partial = append(res.Partial, "VersionForRound stream skipped in this run: no model driver (translator or driver build broken)")
 	}
 	for ci := 0; ci < n; ci++ {
 		t := genTable(c.R)
@@ -229,6 +374,47 @@ func chainLevelStream(c *vh.Ctx) {
 			res.Fail("oracle", "", what, rp)
 			if len(res.Failures) > 20 {
 				return
+			}
+		}
+		// VersionForRound on the same canonical index
+		if drv != nil {
+			qs := genVfrQueries(c, t, full, k)
+			w := runVfrCase(drv, t, canon, qs)
+			res.Dist("versionforround-cases")
+			res.TracesVsImpl += len(qs)
+			for _, q := range qs {
+				if len(q.parents) > 0 {
+					res.Dist("versionforround-with-parents")
+				}
+			}
+			res.Count(fmt.Sprint("VFR", t, canon, qs), crossesSwitch)
+			if ci == 1 {
+				res.Sample(map[string]interface{}{"version_for_round_case": append(vfrDriverLines(t, canon), qs[0].line())})
+			}
+			if w != "" {
+				for len(qs) > 1 { // shrink: drop queries while it still fails
+					shr := false
+					for d := 0; d < len(qs); d++ {
+						cand := append(append([]vfrQ{}, qs[:d]...), qs[d+1:]...)
+						if w2 := runVfrCase(drv, t, canon, cand); w2 != "" {
+							qs, w, shr = cand, w2, true
+							break
+						}
+					}
+					if !shr {
+						break
+					}
+				}
+				lines := vfrDriverLines(t, canon)
+				for _, q := range qs {
+					lines = append(lines, q.line())
+				}
+				rp := vh.WriteReplay(c.ReplayDir, "C12", fmt.Sprintf("versionforround-%d", ci), c.Seed,
+					[]string{"correspondence: (*BlockChain).VersionForRoundWithParents disagrees with the model versionForRound (K lines = canonical headers, F r | parents… = query)", w}, lines)
+				res.Fail("correspondence", "", w, rp)
+				if len(res.Failures) > 20 {
+					return
+				}
 			}
 		}
 	}
